@@ -21,7 +21,8 @@ RUNPAT="$(grep -oE 'func (Test[A-Za-z0-9_]+)' "$SRC/$DEMO" | awk '{print $2}' | 
 cp "$SRC/$DEMO" "$WT/$DEST"
 ( cd "$WT" && timeout 300 go test -vet=off -count=1 -run "^($RUNPAT)\$" "$PKG" >"$WT/.clean.log" 2>&1 ); CLEAN=$?
 rm -f "$WT/$DEST"
-git -C "$WT" apply "$SRC/patch.diff" || { echo "RESULT $ID: patch does not apply"; exit 1; }
+git -C "$WT" apply "$SRC/patch.diff" 2>/dev/null || git -C "$WT" apply -3 "$SRC/patch.diff" || { echo "RESULT $ID: patch does not apply"; exit 1; }
+git -C "$WT" diff HEAD > "$WT/.patch.rebased"   # the change expressed against the current HEAD (hook commit included)
 ( cd "$WT" && go build ./... >"$WT/.build.log" 2>&1 ); BUILD=$?
 ( cd "$WT" && timeout 600 go test -vet=off -count=1 ./... >"$WT/.suite.log" 2>&1 ); SUITE=$?
 cp "$SRC/$DEMO" "$WT/$DEST"
@@ -29,7 +30,7 @@ cp "$SRC/$DEMO" "$WT/$DEST"
 echo "RESULT $ID: demo-on-clean=$CLEAN (want 0) build=$BUILD (want 0) suite=$SUITE (want 0) demo-with-change=$MUT (want !=0)"
 if [ $CLEAN -eq 0 ] && [ $BUILD -eq 0 ] && [ $SUITE -eq 0 ] && [ $MUT -ne 0 ]; then
   OUT="${VERIF_SEEDED_DIR:-/verif/seeded}/$ID"; mkdir -p "$OUT"
-  cp "$SRC/patch.diff" "$OUT/patch.diff"; cp "$SRC/$DEMO" "$OUT/$DEMO"; cp "$SRC/notes.md" "$OUT/notes.md" 2>/dev/null
+  cp "$WT/.patch.rebased" "$OUT/patch.diff"; cp "$SRC/$DEMO" "$OUT/$DEMO"; cp "$SRC/notes.md" "$OUT/notes.md" 2>/dev/null
   python3 - "$OUT" "$PROP" "$ID" "$DEST" "$RUNPAT" <<'PY'
 import json,sys,os
 out,prop,sid,dest,runpat=sys.argv[1:6]
